@@ -20,7 +20,10 @@ def scenarios(tier):
     mon = ("c05",)
     return [
         Scenario("c05-eonly", World, dict(prop="C05", monitors=mon, regions=["R"], emax=1 if q else 2),
-                 MOVES + [("RETRACT",), ("RECOVER",)], max_states=200000 if q else 3000000),
+                 MOVES + [("RETRACT",), ("RECOVER",), ("TRAVELE", "O2"), ("TRAVELE", "I1"), ("RAW", "G10 P0 S205 R170"), ("SET", "save", None)],
+                 max_states=200000 if q else 3000000,
+                 note="incl. travel moves that repeat the current E value, a tool-temperature G10 (P word first) and a "
+                      "settings save that changes nothing"),
         Scenario("c05-inch", World, dict(prop="C05", monitors=mon, regions=["R"], emax=1),
                  [("TRAVEL", "O2"), ("TRAVEL", "I1"), ("PRINT", "O1"), ("PRINT", "I2"), ("RETRACT",), ("RECOVER",),
                   ("INCH",), ("MM",), ("ESET0",)], max_depth=7 if q else 10, max_states=3000000,
@@ -30,6 +33,13 @@ def scenarios(tier):
                  [("TRAVEL", "O2"), ("TRAVEL", "I1"), ("PRINT", "O1"), ("PRINT", "I2"), ("FWRETRACT",), ("FWRECOVER",),
                   ("AT", "ExcludeRegion", "disable"), ("AT", "ExcludeRegion", "enable")],
                  max_states=200000 if q else 3000000, note="G10S1 / G11S1: no blank between code and parameter"),
+        Scenario("c05-firmware-spellings", World, dict(prop="C05", monitors=mon, regions=["R"], emax=1),
+                 [("TRAVEL", "O2"), ("TRAVEL", "I1"), ("PRINT", "O1"), ("FWRETRACT", "G10"), ("FWRETRACT", "G10 S1."),
+                  ("FWRETRACT", "G10 S"), ("FWRETRACT", "G10\tS1"), ("FWRECOVER", "G11"), ("FWRECOVER", "G11 S1."),
+                  ("RAW", "G10 P0 S205 R170"), ("RAW", "G10 L2 P1 X0 Y0")],
+                 max_states=200000 if q else 3000000,
+                 note="legal spellings of the firmware cycle (bare, trailing decimal point, value-less S, TAB) next to "
+                      "G10 commands that are not retractions (P/L word first)"),
         Scenario("c05-firmware", World, dict(prop="C05", monitors=mon, regions=["R"], emax=1 if q else 2),
                  MOVES + [("FWRETRACT",), ("FWRECOVER",)], max_states=200000 if q else 3000000),
     ]
